@@ -354,7 +354,7 @@ func genIncompatible(rng *rand.Rand) (target reflect.Type, source reflect.Value,
 func c20(c *wk.Ctx) {
 	c.Note("rule", "streams: compat = a random pair (S,T) of structurally compatible Go types generated together (same-signedness integer widening incl. int/uint, float32->float64, string, bool, slices, maps with scalar keys, structs with permuted field order and varied letter case, depth <= 4/6) and a random edge-biased value s of S: ConvertFrom(&t, s) must succeed and equal the reference conversion, ConvertFrom(&s2, t) must recover s, and DecodeFrom (the Proxy.Call2 path) must give the same t from the encoding of s; incompat = pairs that must be refused (bool/int, string/number, float/int, slice/map, container/scalar, struct/container), bare and nested in a slice, map value or struct field. Distinct non-trivial = distinct pair shapes containing a composite or a width change.")
 	depth := c.Pick(4, 6)
-	c.Cases("compat", c.Pick(30000, 500000), func(i int, rng *rand.Rand) {
+	c.Cases("compat", c.Pick(100000, 500000), func(i int, rng *rand.Rand) {
 		n := genNode(rng, 1+rng.Intn(depth))
 		sT, tT := n.types()
 		s := reflect.New(sT).Elem()
